@@ -237,6 +237,31 @@ def _scan_semantics(db, chk, mod, f, make_events, root_of, upto=None):
     return verdict
 
 
+def _sort_on_every_path(chk, mod, f, srt, lp_pos, label, is_sort=None):
+    """the comparator sort reaches the scan on EVERY path: it does not sit in one branch of a conditional (or in a handler) whose other branch falls through to the scan
+    without it - an array ordered by anything else (np.lexsort, sort_values by several keys, the file order) is not the order the comparator tables were decided for"""
+    if len(srt) != 1 or lp_pos is None:
+        return
+    par = {}
+    for n_ in ast.walk(f):
+        for c_ in ast.iter_child_nodes(n_):
+            par[id(c_)] = n_
+    is_sort = is_sort or (lambda c: isinstance(c, ast.Call) and H.name_id(c.func) == "sort_events")
+    cur, child, bad = par.get(id(srt[0])), srt[0], []
+    while cur is not None and cur is not f:
+        if isinstance(cur, ast.If) and not any(n_ is lp_pos for n_ in ast.walk(cur)):
+            mine = cur.body if any(child is n_ or any(child is d_ for d_ in ast.walk(n_)) for n_ in cur.body) else cur.orelse
+            other = cur.orelse if mine is cur.body else cur.body
+            leaves = bool(other) and isinstance(other[-1], (ast.Return, ast.Raise, ast.Continue))
+            if not leaves and not any(is_sort(n_) for st_ in other for n_ in ast.walk(st_)):
+                bad.append(f"if {ast.unparse(cur.test)[:80]}: the {'else' if mine is cur.body else 'if'} branch reaches the scan without the comparator sort")
+        elif isinstance(cur, (ast.Try, ast.ExceptHandler, ast.While, ast.For)) and not any(n_ is lp_pos for n_ in ast.walk(cur)):
+            bad.append(f"the sort sits inside a {type(cur).__name__.lower()} statement in front of the scan")
+        child, cur = cur, par.get(id(cur))
+    chk.ob("C03.R3-builder", f"{label}: the comparator sort is on EVERY path to the scan (no branch hands the scan an array ordered some other way)", None if bad else True, mod.loc(f), found=bad or "unconditional",
+           accepted="sort_events(events) not under a condition, or in every branch", why="another ordering of the endpoints (a lexicographic fast path, the file order) is not the order whose tie rules were decided: identical spans, shared instants may nest differently")
+
+
 def _loop_discipline(chk, mod, f, open_test_ok, sem=None):
     where = mod.loc(f)
     lp, stack_name = _stack_loop(f)
@@ -352,6 +377,7 @@ def _builders(db, chk, new, old, OPEN_N, CLOSE_N, START_O, END_O):
     lp_pos = lp if lp is not None else _stack_loop(f)[0]          # (the loop's position is known even when its body was not recognised)
     chk.ob("C03.R3-builder", f"{NEW}: the analysed comparator sorts the endpoints before the scan", (len(srt) == 1 and srt[0].lineno < lp_pos.lineno) if lp_pos is not None else None, new.loc(f), found=[ast.unparse(s) for s in srt],
            accepted="sort_events(events) before the loop")
+    _sort_on_every_path(chk, new, f, srt, lp_pos, NEW)
     se = new.func("sort_events")
     # the cmp function handed to cmp_to_key: nested in sort_events or a module-level helper
     scope = [se]
@@ -411,6 +437,7 @@ def _builders(db, chk, new, old, OPEN_N, CLOSE_N, START_O, END_O):
     lp2_pos = lp2 if lp2 is not None else _stack_loop(g)[0]
     ok_srt = len(srt2) == 1 and lp2_pos is not None and H.before(srt2[0], lp2_pos) and "cmp_to_key(compare_events)" in ast.unparse(srt2[0]) and not any(k.arg == "reverse" for k in srt2[0].keywords)
     sorts_any = [c for c in H.calls(g) if (isinstance(c.func, ast.Attribute) and c.func.attr == "sort") or H.name_id(c.func) == "sorted"]
+    _sort_on_every_path(chk, old, g, srt2, lp2_pos, OLD, is_sort=lambda c: isinstance(c, ast.Call) and "compare_events" in ast.unparse(c))
     chk.ob("C03.R3-builder", f"{OLD}: the analysed comparator sorts the endpoints before the scan", ok_srt if srt2 else (False if sorts_any else None),
            old.loc(g), found=[ast.unparse(s)[:120] for s in (srt2 or sorts_any)], accepted="events.sort(key=cmp_to_key(compare_events))",
            why="another sort key is another order of the endpoints: the tie rules decided for compare_events no longer describe the stack that is built")
